@@ -82,7 +82,8 @@ theorem sub_of_flatB {subs : List (List Stmt)} (hsubs : subsCheck subs = true)
     have hpos : Pos (sub :: rest) 0 0 0 :=
       ⟨sub, by simp, hs.ne_nil (i := 0) (by simp), by simp [start_zero]⟩
     have := (sub_simB hs n 0 orc r hn hok 0 0 hpos).exact
-    simpa [runSubFuel] using this
+    have h0 : findSub (sub :: rest) 0 = some 0 := by rw [hs.findSub]; simp
+    simpa [runSubFuel, h0] using this
 
 /-- `runSub` with its concrete budget computes the structured result -/
 theorem runSub_final (flow : List Node) (hwf : wfSeq flow = true) (orc : List Bool) :
